@@ -9,14 +9,14 @@ Oracle: every ACCEPTED candidate's sequence is in (one reading of) the reference
 from vt import core, dsw, rnd
 
 PROP = 'C04'
-RULE = ('designs of strata S1, S1x, S2, S3, S4, S5, S6 (quick: fixed core + seed-rotated slice) with <= REF_LIMIT reference sequences whose '
+RULE = ('designs of strata S1 (with S1d, S1L, S1n, S1p), S1x, S2 (with S2s), S3, S4, S5, S6 (quick: fixed core + seed-rotated slice) with <= REF_LIMIT reference sequences whose '
         'candidate tree has <= CAP leaves; states = executions (candidates), transitions = choice points explored; non-trivial = at '
         'least one candidate was rejected or the design has a derived factor (so acceptance/fill-in logic was exercised) and >= 2 '
         'candidates were accepted.')
 ASSUMPTIONS = ['reference model vt/ref.py (documented semantics; readings where under-specified)',
                'random.randrange is RandomGen\'s only source of nondeterminism (one schedule is replayed twice per design and must reproduce)']
 BUDGET_S = {'quick': 90, 'thorough': 600}
-STRATA = ['S1', 'S1L', 'S1n', 'S1p', 'S1x', 'S2', 'S2s', 'S3', 'S4', 'S5', 'S6']
+STRATA = ['S1', 'S1d', 'S1L', 'S1n', 'S1p', 'S1x', 'S2', 'S2s', 'S3', 'S4', 'S5', 'S6']
 QUICK_CAPS = dsw.QUICK_CAPS_BIG
 MODE = 'sound'
 REF_LIMIT = {'quick': 1200, 'thorough': 20000}     # the reference enumeration is cheap; the sampler side is bounded by CAP leaves
